@@ -956,6 +956,16 @@ def struct_format(run, ctx, call):
             if ca is None:
                 continue
             for v in ca[1]:
+                if isinstance(v, ast.Attribute) and v.attr in ('pack', 'unpack') and isinstance(v.value, ast.Name):
+                    # the Struct object is a module-level constant (possibly imported from a sibling module)
+                    cm = run.prog.classes[ca[0]].module if ca[0] in run.prog.classes else None
+                    r_ = run.prog.lookup(cm, v.value.id) if cm is not None else None
+                    if r_ and r_[0] == 'global':
+                        gm = run.prog.modules.get(r_[1])
+                        for st_ in (gm.tree.body if gm is not None else []):
+                            if isinstance(st_, ast.Assign) and any(isinstance(t_, ast.Name) and t_.id == r_[2] for t_ in st_.targets) \
+                                    and isinstance(st_.value, ast.Call):
+                                v = ast.Attribute(value=st_.value, attr=v.attr, ctx=ast.Load())
                 if isinstance(v, ast.Attribute) and v.attr in ('pack', 'unpack') and isinstance(v.value, ast.Call) \
                         and v.value.args and isinstance(v.value.args[0], ast.Constant):
                     fmt = v.value.args[0].value
